@@ -89,6 +89,7 @@ class X:
         self.depth = 0
         self.transparent = set()    # FuncSrc.ref of every function unfolded at a call site
         self.fresh_id = itertools.count()
+        self.loop_idx = []          # (fresh index var, bound) of every generic loop / element evaluation
 
     # ---------------------------------------------------------------- entry points
     def run(self, func, args=(), kwargs=None, self_obj=None, st=None):
@@ -584,11 +585,41 @@ class X:
             return fn(*xs)
         return Arr(shp, f, dtype or arrs[0].dtype, 'fresh')
 
+    def eager(self, shape, f, st):
+        """evaluate an element function once at fresh indices under the current state so that raise / division side
+        conditions of the element computation are recorded (the indices are kept in self.loop_idx with their bounds)"""
+        idx = [self.fresh_int('e') for _ in shape]
+        live0 = st.live
+        st.live = z3.And([live0] + [z3.And(k >= 0, k < Z(n)) for k, n in zip(idx, shape)])
+        self.loop_idx += [(k, Z(n)) for k, n in zip(idx, shape)]
+        old = self._lazy
+        try:
+            self._lazy = st
+            f(*idx)
+        finally:
+            self._lazy = old
+            st.live = live0
+
+    _lazy = None
+    loop_idx = []
+
+    def lazy_st(self):
+        """state used by element closures: the real state during eager evaluation, a throw-away one afterwards"""
+        return self._lazy if self._lazy is not None else St()
+
     # ---------------------------------------------------------------- operators
     def bin(self, op, a, b, st, node=None):
         ln = getattr(node, 'lineno', 0)
         if isinstance(a, Arr) or isinstance(b, Arr):
-            return self.lift(lambda x, y: self.bin(op, x, y, st, node), a, b)
+            if isinstance(a, Arr) and isinstance(b, Arr) and a.dtype == 'bool' and b.dtype == 'bool' \
+                    and isinstance(op, (ast.Add, ast.Mult, ast.BitOr, ast.BitAnd)):
+                # numpy: bool + bool is logical or, bool * bool is logical and
+                k = (lambda x, y: z3.Or(B(x), B(y))) if isinstance(op, (ast.Add, ast.BitOr)) else (lambda x, y: z3.And(B(x), B(y)))
+                return self.lift(k, a, b, dtype='bool')
+            r = self.lift(lambda x, y: self.bin(op, x, y, self.lazy_st(), node), a, b)
+            if isinstance(op, (ast.Div, ast.Mod, ast.FloorDiv)):
+                self.eager(r.shape, r.f, st)
+            return r
         if isinstance(a, Alt):
             return self._collapse(Alt([(c, self.bin(op, v, b, st, node)) for c, v in a.alts]))
         if isinstance(b, Alt):
@@ -664,7 +695,7 @@ class X:
 
     def cmp(self, op, a, b, st):
         if isinstance(a, Arr) or isinstance(b, Arr):
-            return self.lift(lambda x, y: self.cmp(op, x, y, st), a, b, dtype='bool')
+            return self.lift(lambda x, y: self.cmp(op, x, y, self.lazy_st()), a, b, dtype='bool')
         if isinstance(op, (ast.In, ast.NotIn)):
             r = self.contains(b, a, st)
             return r if isinstance(op, ast.In) else z3.Not(r)
@@ -773,6 +804,7 @@ class X:
         return self.apply(fv, args, kwargs, st, e)
 
     _cur_class = None
+    comp_idx = []
 
     def apply(self, fv, args, kwargs, st, node=None):
         if isinstance(fv, tuple) and fv and fv[0] == 'bound':
@@ -1128,16 +1160,32 @@ class X:
                 if kind != 'list' or g.ifs or conc(it.a) != 0 or conc(it.st) != 1 or not isinstance(g.target, ast.Name):
                     raise Unsupported('comprehension over symbolic range')
 
+                live_c = st.live
+
                 def f(i, e=e, env=env, g=g):
                     env2 = dict(env); env2[g.target.id] = i
-                    return self.ev(e.elt, env2, st)
+                    self.comp_idx = self.comp_idx + [i]
+                    ls = self.lazy_st()
+                    if ls is not self._lazy:
+                        ls.live = live_c
+                    try:
+                        return self.ev(e.elt, env2, ls)
+                    finally:
+                        self.comp_idx = self.comp_idx[:-1]
+                self.eager((it.b,), f, st)
                 return Arr((it.b,), f, 'obj', 'fresh')
             it = self._range_items(it)
         if isinstance(it, Arr) and it.rank == 1 and kind == 'list' and not g.ifs:
+            live_c = st.live
+
             def f2(i, e=e, env=env, g=g, it=it):
                 env2 = dict(env)
-                self.assign(g.target, it.f(i), env2, st)
-                return self.ev(e.elt, env2, st)
+                ls = self.lazy_st()
+                if ls is not self._lazy:
+                    ls.live = live_c
+                self.assign(g.target, it.f(i), env2, ls)
+                return self.ev(e.elt, env2, ls)
+            self.eager(it.shape, f2, st)
             return Arr(it.shape, f2, 'obj', 'fresh')
         if not isinstance(it, T):
             h = self.intr.get(('comp', getattr(it, 'tag', type(it).__name__)))
@@ -1296,6 +1344,10 @@ class X:
         # mutating method calls: list.append / dict.pop
         if isinstance(v, ast.Call) and isinstance(v.func, ast.Attribute) and v.func.attr in ('append', 'pop', 'extend'):
             base = self.ev(v.func.value, env, st)
+            if isinstance(base, Alt) and v.func.attr == 'append' and all(isinstance(b, T) for _, b in base.alts):
+                item = self.ev(v.args[0], env, st)
+                self._store_back(v.func.value, Alt([(c, T(b.items + [item], b.kind)) for c, b in base.alts], base.partial), env, st)
+                return
             if isinstance(base, T) and v.func.attr == 'append':
                 self._store_back(v.func.value, T(base.items + [self.ev(v.args[0], env, st)], base.kind), env, st)
                 return
